@@ -548,9 +548,18 @@ func TestReplay(t *testing.T) {
 		Slow    bool `json:"slow_persistent_read"`
 		AutoSv  bool `json:"json_autosave"`
 		Sweep   bool `json:"cache_sweep_race"`
+		TwoNode bool `json:"two_node_write_through"`
 	}
 	if _, err := vkit.LoadReplay(path, &kind); err != nil {
 		t.Fatal(err)
+	}
+	if kind.TwoNode {
+		var tc TNCase
+		vkit.LoadReplay(path, &tc)
+		if key, detail := runTwoNode(tc); key != "" {
+			vkit.Violation(t, key, detail, tc)
+		}
+		return
 	}
 	if kind.Sweep {
 		var sc SweepCase
